@@ -58,6 +58,20 @@ def gen_cases(chk, n, table):
         if rng.uniform() < 0.25 or family == 2:
             c["mdl"] = {"label": rng.choice(LABELS), "rank": rng.randint(-1, 3), "phi": rng.choice([0.0, 45.0, -120.0, 180.0]),
                         "theta": rng.choice([0.0, 90.0, 30.0, 180.0]), "aperture": rng.choice([0.0, 5.0, 30.0, 90.0, 170.0])}
+            # any single --pgop-mdl-* option switches the operation on; the options not given keep the defaults of the operation's
+            # configuration (label '', rank -1, angles 0): a third of the MDL command lines give only a subset
+            keys = ["label", "rank", "phi", "theta", "aperture"]
+            if rng.uniform() < 0.35:
+                given = [k for k in keys if rng.uniform() < 0.5] or [rng.choice(keys)]
+                if rng.uniform() < 0.6 and "label" not in given:
+                    given.append("label")
+                defaults = {"label": "", "rank": -1, "phi": 0.0, "theta": 0.0, "aperture": 0.0}
+                for k in keys:
+                    if k not in given:
+                        c["mdl"][k] = defaults[k]
+                c["mdl"]["given"] = given
+            else:
+                c["mdl"]["given"] = keys
         # hostile variations (each makes the command line one that must be refused)
         r = rng.uniform()
         if r < 0.06:
@@ -94,7 +108,18 @@ def gen_cases(chk, n, table):
         elif r < 0.41 and c["mdl"]:
             c["bad"] = "mdl-bad-label"
             c["mdl"]["label"] = "muon"
+            if "label" not in c["mdl"]["given"]:
+                c["mdl"]["given"].append("label")
         cases.append(c)
+    # every --pgop-mdl-* option alone (each of them switches the operation on by itself), in every run whatever the seed
+    defaults = {"label": "", "rank": -1, "phi": 0.0, "theta": 0.0, "aperture": 0.0}
+    values = {"label": "e-", "rank": 0, "phi": 45.0, "theta": 90.0, "aperture": 30.0}
+    for j, k in enumerate(["label", "rank", "phi", "theta", "aperture"]):
+        m = dict(defaults)
+        m[k] = values[k]
+        m["given"] = [k]
+        cases.append({"id": n + j, "cat": "background", "nuclide": ["Cs137+Ba137m", "Co60", "Bi214+Po214", "K40", "Tl208"][j], "seed": 314159 + j, "n": 7, "level": None, "mode": None,
+                      "emin": None, "emax": None, "activity": None, "mdl": m, "extra": [], "bad": None, "basename_kind": "ok", "order": j})
     return cases
 
 
@@ -116,8 +141,9 @@ def argv_of(c, basename):
         opts.append(["-a", repr(c["activity"])])
     if c["mdl"]:
         m = c["mdl"]
-        opts += [["--pgop-mdl-particle", m["label"]], ["--pgop-mdl-rank", str(m["rank"])], ["--pgop-mdl-cone-phi", repr(m["phi"])],
-                 ["--pgop-mdl-cone-theta", repr(m["theta"])], ["--pgop-mdl-cone-aperture", repr(m["aperture"])]]
+        allo = {"label": ["--pgop-mdl-particle", m["label"]], "rank": ["--pgop-mdl-rank", str(m["rank"])], "phi": ["--pgop-mdl-cone-phi", repr(m["phi"])],
+                "theta": ["--pgop-mdl-cone-theta", repr(m["theta"])], "aperture": ["--pgop-mdl-cone-aperture", repr(m["aperture"])]}
+        opts += [allo[k] for k in m.get("given", list(allo))]
     if c["extra"]:
         opts.append(c["extra"])
     # option order
